@@ -3,6 +3,8 @@ CONSTANTS
   Classes <- ClassesCaps
   Outs <- OutsCaps
   Durs = {0}
+  CDurs <- ZeroDur
+  EDurs <- ZeroDur
   Rets <- RetsOne
   Advs <- AdvsExact
   Decs <- DecsSleep
